@@ -407,6 +407,29 @@ def rule_r25_bulk_selection(ctx, prog, rule="R25"):
             while isinstance(v, tuple) and v[0] == "call" and v[1] in ("into_iter", "iter", "cloned", "drain") and v[3]:
                 v = ds(v[3][0])
             okz = v == r2
+        # an empty map is handed back only for an empty index list (a second, unconditional or differently guarded `return
+        # IndexMap::new()` drops every requested rank)
+        from .rules_unsafe import bool_branch_dominating
+        oke, edetail = True, "the empty map is returned only under indexes.is_empty()"
+        for dd in w.reaching_defs(0, w.exits()[0], "term"):
+            f = ds(w.def_expr(0, dd))
+            if isinstance(f, tuple) and f[0] == "call" and f[1] in ("new", "default", "with_capacity") and z is not None:
+                filled = any(callee_name(t2) == "insert" and [ds(a2) for a2 in w.call_arg_exprs(b2)][:1] == [f] for b2, t2 in w.calls())
+                if filled:
+                    continue
+
+                def is_empty_of_indexes(e):
+                    e = ds(e)
+                    if isinstance(e, tuple) and e[0] == "call" and e[1] == "is_empty" and e[3]:
+                        return root(e[3][0])[:2] == ("param", 2)
+                    if isinstance(e, tuple) and e[0] == "binop" and e[1] == "Eq":
+                        l_, r_ = ds(e[2]), ds(e[3])
+                        return isinstance(l_, tuple) and l_[0] == "call" and l_[1] == "len" and root(l_[3][0])[:2] == ("param", 2) and r_ == ("const", "usize", 0)
+                    return False
+                doms = bool_branch_dominating(w, dd[0], is_empty_of_indexes)
+                if not any(x_[1] for x_ in doms):
+                    oke, edetail = False, "an empty map is returned at %s without `indexes.is_empty()` being established" % w.where(dd[0], dd[1])
+        ctx.ob(rule, "bulk/wrapper-empty-only-for-empty-request", oke, w.where(), edetail, what="bulk result dropped for a non-empty request")
         ctx.ob(rule, "bulk/wrapper-pairs-values", okz, w.where(),
                "the returned map zips the index list with the very values vector the recursive routine filled" if okz else
                "the values zipped into the result are not the vector passed to the recursive routine", what="bulk result pairing")
